@@ -374,6 +374,11 @@ def eventLoop {W : Type} (ops : Ops W) : St W → List Event → Except Fault (S
         | .ok (s1, some e) => .ok (s1, .err e)
         | .ok (s1, none) => eventLoop ops s1 rest
 
+/-- the timeout `Driver::poll` hands to the poller: a queued completion (`has_completed`, read BEFORE the
+    wait) or a pending notification (`!need_wait`) turns a blocking wait into a non-blocking one -/
+def waitTimeout {W : Type} (s : St W) (notified : Bool) (timeout : Option Nat) : Option Nat :=
+  if notified || !s.chan.isEmpty then some 0 else timeout
+
 /-- `Driver::poll`; `fired` is what `epoll_wait` reports -/
 def poll {W : Type} (ops : Ops W) (s : St W) (timeoutIsSome : Bool) (fired : List Fired) :
     Except Fault (St W × PollRes) :=
